@@ -31,7 +31,8 @@ def apply(ary, spec):
     if k == "inlined":
         return ary.tagged(pttags.ImplInlined())
     if k == "subst":
-        return ary.tagged(pttags.ImplSubstitution())
+        from pytato.target.loopy import ImplSubstitution
+        return ary.tagged(ImplSubstitution())
     if k == "prefix":
         return ary.tagged(pttags.PrefixNamed(spec[1]))
     if k == "named":
